@@ -30,6 +30,11 @@ def _(self, start, end):
     ensures(AbsInv(self))
     ensures(forall(lambda k: implies(old(start.g_pos) <= k and k <= old(end.g_pos), as_ref(sel(old(self.g_view), k), 'RawTokenModel').g_store is None)))
 
+@contract('RawModel.token_store')
+def _(self):
+    modifies()
+    ensures(result is self.g_ts)
+
 @contract('RawModel.last_token')
 def _(self):
     modifies()
@@ -58,10 +63,14 @@ def _(self, token_store, pivot, current):
 def _(self):
     requires(self != None and implies(self.g_ts != None, AbsInv(self.g_ts)))
     modifies('TokenStore.g_view', 'TokenStore.g_vlen', 'RawTokenModel.g_store', 'RawTokenModel.g_pos')
+    raises('ValueError', 'TokenStore.g_view', 'TokenStore.g_vlen', 'RawTokenModel.g_store', 'RawTokenModel.g_pos')      # a node that does not span its store is refused
     ensures(result != None and fresh(result) and len(result) >= 1)
     ensures(forall(lambda k: implies(0 <= k and k < len(result), result[k] != None and allocated(result[k]) and result[k].g_store is None), result[k]))
     ensures(forall(lambda j, k: implies(0 <= j and j < k and k < len(result), result[j] != result[k])))
     ensures(implies(old(self.g_ts) is None, len(result) == 1 and result[0] is self))
+    # (proved for the real RawModel.detach in unit l2.base) a node in a store comes out with the whole view of that store, in order, and leaves it empty
+    ensures(implies(old(self.g_ts) != None, len(result) == old(self.g_ts.g_vlen) and old(self.g_ts).g_vlen == 0
+                    and forall(lambda k: implies(0 <= k and k < len(result), result[k] == sel(old(self.g_ts.g_view), k)), result[k])))
     ensures(implies(old(self.g_ts) != None, forall(lambda k: implies(0 <= k and k < len(result), old(as_ref(sel(elems(result), k), 'RawTokenModel').g_store) is old(self.g_ts)), result[k])))
     ensures(forall(lambda t: implies(old(as_ref(t, 'RawTokenModel').g_store) is None, as_ref(t, 'RawTokenModel').g_store is None)))
     ensures(forall(lambda s: implies(as_ref(s, 'TokenStore') is not old(self.g_ts), as_ref(s, 'TokenStore').g_view == old(as_ref(s, 'TokenStore').g_view) and as_ref(s, 'TokenStore').g_vlen == old(as_ref(s, 'TokenStore').g_vlen))))
@@ -86,7 +95,10 @@ def _(self, ref, tokens):
 @contract('optional_left_field._create_node')
 def _(self, token_store, pivot, value):
     requires(token_store != None and value != None and self != None and self._separators != None and AbsInv(token_store) and In(token_store, pivot))
-    requires(value.g_ts is not token_store and implies(value.g_ts != None, AbsInv(value.g_ts)))
+    requires(implies(value.g_ts != None, AbsInv(value.g_ts)))
+    # a node of the destination document itself is refused before anything is touched (fix b2fd10c)
+    raises('ValueError', 'TokenStore.g_view', 'TokenStore.g_vlen', 'RawTokenModel.g_store', 'RawTokenModel.g_pos', 'RawModel.g_ts')
+    ensures(old(value.g_ts) is not token_store)
     ensures(token_store.g_vlen >= old(token_store.g_vlen) + len(self._separators) + 1)
     ensures(forall(lambda k: implies(0 <= k and k <= old(pivot.g_pos), sel(token_store.g_view, k) == sel(old(token_store.g_view), k))))
     ensures(forall(lambda k: implies(old(pivot.g_pos) < k and k < old(token_store.g_vlen), sel(token_store.g_view, k + (token_store.g_vlen - old(token_store.g_vlen))) == sel(old(token_store.g_view), k))))
@@ -106,8 +118,54 @@ def _(self, ref, tokens):
 @contract('optional_right_field._create_node')
 def _(self, token_store, pivot, value):
     requires(token_store != None and value != None and self != None and self._separators != None and AbsInv(token_store) and In(token_store, pivot))
-    requires(value.g_ts is not token_store and implies(value.g_ts != None, AbsInv(value.g_ts)))
+    requires(implies(value.g_ts != None, AbsInv(value.g_ts)))
+    # a node of the destination document itself is refused before anything is touched (fix b2fd10c)
+    raises('ValueError', 'TokenStore.g_view', 'TokenStore.g_vlen', 'RawTokenModel.g_store', 'RawTokenModel.g_pos', 'RawModel.g_ts')
+    ensures(old(value.g_ts) is not token_store)
     ensures(token_store.g_vlen >= old(token_store.g_vlen) + len(self._separators) + 1)
     ensures(forall(lambda k: implies(0 <= k and k < old(pivot.g_pos), sel(token_store.g_view, k) == sel(old(token_store.g_view), k))))
     ensures(forall(lambda k: implies(old(pivot.g_pos) <= k and k < old(token_store.g_vlen), sel(token_store.g_view, k + (token_store.g_vlen - old(token_store.g_vlen))) == sel(old(token_store.g_view), k))))
     ensures(AbsInv(token_store) and value.g_ts is token_store)
+
+# ---- replace_node (C03, C05, C19)
+@contract('TokenStore.__len__')
+def _(self):
+    requires(AbsInv(self))
+    modifies()
+    ensures(result == self.g_vlen)
+
+@contract('TokenStore.splice')
+def _(self, tokens, ref, del_end):
+    requires(AbsInv(self) and In(self, ref) and In(self, del_end) and ref.g_pos <= del_end.g_pos and tokens != None)
+    requires(forall(lambda k: implies(0 <= k and k < len(tokens), tokens[k] != None and tokens[k].g_store is None), tokens[k]))
+    requires(forall(lambda j, k: implies(0 <= j and j < k and k < len(tokens), tokens[j] != tokens[k])))
+    modifies('TokenStore.g_view@self', 'TokenStore.g_vlen@self', 'RawTokenModel.g_store', 'RawTokenModel.g_pos')
+    ensures(self.g_vlen == old(self.g_vlen) - (old(del_end.g_pos) + 1 - old(ref.g_pos)) + len(tokens) and AbsInv(self))
+    ensures(forall(lambda k: sel(self.g_view, k) == ite(k < old(ref.g_pos), sel(old(self.g_view), k),
+                             ite(k < old(ref.g_pos) + len(tokens), sel(elems(tokens), k - old(ref.g_pos)), sel(old(self.g_view), k - len(tokens) + (old(del_end.g_pos) + 1 - old(ref.g_pos)))))))
+    ensures(forall(lambda s: implies(as_ref(s, 'TokenStore') is not self, as_ref(s, 'TokenStore').g_view == old(as_ref(s, 'TokenStore').g_view) and as_ref(s, 'TokenStore').g_vlen == old(as_ref(s, 'TokenStore').g_vlen))))
+
+@contract('_check_not_in_store')
+def _(value, token_store):
+    requires(value != None)
+    modifies()
+    raises('ValueError', when=value.g_ts is token_store)
+
+@contract('replace_node')
+def _(node, repl):
+    types(node='RawModel', repl='RawModel')
+    requires(node != None and repl != None and implies(repl.g_ts != None, AbsInv(repl.g_ts)))
+    requires(implies(node.g_ts != None, AbsInv(node.g_ts) and In(node.g_ts, node.g_first) and In(node.g_ts, node.g_last) and node.g_first.g_pos <= node.g_last.g_pos))
+    # every refusal (free node, replacement from this very store, replacement that cannot be detached) leaves everything as it was
+    raises('ValueError', 'TokenStore.g_view', 'TokenStore.g_vlen', 'RawTokenModel.g_store', 'RawTokenModel.g_pos', 'RawModel.g_ts')
+    ensures(old(node.g_ts) != None and old(node.g_ts.g_vlen) > 0)
+    ensures(implies(node is repl, node.g_ts.g_view == old(node.g_ts.g_view) and node.g_ts.g_vlen == old(node.g_ts.g_vlen)))
+    ensures(implies(node is not repl, old(repl.g_ts) is not old(node.g_ts)))
+    # the node's span [a, b] is replaced by the (>= 1) tokens of the replacement; what was before stays, what was behind is shifted
+    ensures(implies(node is not repl, AbsInv(old(node.g_ts)) and old(node.g_ts).g_vlen >= old(node.g_ts.g_vlen) - (old(node.g_last.g_pos) + 1 - old(node.g_first.g_pos)) + 1))
+    ensures(implies(node is not repl, forall(lambda k: implies(0 <= k and k < old(node.g_first.g_pos), sel(old(node.g_ts).g_view, k) == sel(old(node.g_ts.g_view), k)))))
+    ensures(implies(node is not repl, forall(lambda k: implies(old(node.g_last.g_pos) < k and k < old(node.g_ts.g_vlen), sel(old(node.g_ts).g_view, k + (old(node.g_ts).g_vlen - old(node.g_ts.g_vlen))) == sel(old(node.g_ts.g_view), k)))))
+    # the tokens in between are exactly those the replacement's own store held (its store is empty afterwards), and a tree replacement now lives in the node's store
+    ensures(implies(node is not repl and old(repl.g_ts) != None, old(repl.g_ts).g_vlen == 0 and old(node.g_ts).g_vlen == old(node.g_ts.g_vlen) - (old(node.g_last.g_pos) + 1 - old(node.g_first.g_pos)) + old(repl.g_ts.g_vlen)
+                    and forall(lambda k: implies(0 <= k and k < old(repl.g_ts.g_vlen), sel(old(node.g_ts).g_view, old(node.g_first.g_pos) + k) == sel(old(repl.g_ts.g_view), k)))))
+    ensures(implies(node is not repl and isinstance(repl, RawTreeModel), repl.g_ts is old(node.g_ts)))
